@@ -139,6 +139,8 @@ type Plan struct {
 	Opt     OptPlan    `json:"opt"`
 	Steps   []Step     `json:"steps"`
 	Crash   *CrashPlan `json:"crash,omitempty"`
+	// Sched, if set, perturbs goroutine interleaving at FS-operation granularity.
+	Sched *SchedPlan `json:"sched,omitempty"`
 }
 
 func (p Plan) Summary() any {
